@@ -34,22 +34,115 @@ def enumerate_programs(cfg_text, unfixed=None, timeout=3600, simulate=None,
     return [seen[k] for k in sorted(seen)], res['stats']
 
 
-def _observe_chunk(chunk):
+def _observe_chunk_file(cid, chunk, path):
+    """Observe the programs of one chunk, writing a durable progress file:
+    {"pid"}, then {"start": i} / {"done": i, "obs": ..} per program - so that
+    the parent can tell WHICH program a stuck worker is in and keep the rest."""
     from .observe import observe
-    return [observe(p, touch=t) for p, t in chunk]
+    hangs = 0
+    with open(path, 'a') as f:
+        f.write(json.dumps({'pid': os.getpid()}) + '\n')
+        f.flush()
+        for i, (p, t) in enumerate(chunk):
+            f.write(json.dumps({'start': i}) + '\n')
+            f.flush()
+            # a tree on which programs hang: after three of them in this chunk the
+            # others get 3 s instead of 10 s (they take milliseconds when they work)
+            o = observe(p, timeout=10.0 if hangs < 3 else 3.0, touch=t)
+            hangs += o['build'] == 'HANG'
+            f.write(json.dumps({'done': i, 'obs': o}) + '\n')
+            f.flush()
+    return cid
 
 
-def observe_all(progs, chunk=100, timeout=1800, touch=None):
-    """touch[i]: build program i in touch mode - keys(), len() and indexable of
-    every intermediate dataset are read before the next stage is put on top
-    (memos of one object must not leak into the datasets derived from it)."""
+def _read_progress(path):
+    pid, started, done = None, None, {}
+    try:
+        with open(path) as f:
+            for line in f:
+                try:
+                    r = json.loads(line)
+                except ValueError:
+                    continue
+                if 'pid' in r:
+                    pid = r['pid']
+                elif 'start' in r:
+                    started = r['start']
+                elif 'done' in r:
+                    done[r['done']] = r['obs']
+    except OSError:
+        pass
+    return pid, started, done
+
+
+def observe_all(progs, chunk=100, timeout=3000, touch=None, stall=50.0):
+    """touch[i]: observation mode of program i (harness/observe.py).
+    A program on which the library HANGS where not even the alarm of observe()
+    gets through (e.g. inside a finalizer that joins a stuck thread) is found by
+    lack of progress of its worker: the worker is killed, the program is
+    observed as build = 'HANG', the rest of its chunk is handed out again."""
+    import signal
+    import time
+    from .observe import refused
     jobs = list(zip(progs, touch if touch is not None else [False] * len(progs)))
-    chunks = [jobs[i:i + chunk] for i in range(0, len(jobs), chunk)]
-    if not chunks:
+    if not jobs:
         return []
+    d = os.path.join(common.scratch(), 'observe-%d' % int(time.time() * 1000))
+    os.makedirs(d)
+    out = [None] * len(jobs)
+    t0 = time.time()
     with mp.get_context('fork').Pool(common.NCPU) as pool:
-        out = pool.map_async(_observe_chunk, chunks).get(timeout)
-    return [o for c in out for o in c]
+        tasks = {}          # cid -> [async result, first job index, jobs, path, last size, last change]
+
+        def submit(first, part):
+            cid = len(tasks)
+            path = os.path.join(d, f'{cid}.ndjson')
+            tasks[cid] = [pool.apply_async(_observe_chunk_file, (cid, part, path)), first, part, path,
+                          -1, time.time(), False]
+        for i in range(0, len(jobs), chunk):
+            submit(i, jobs[i:i + chunk])
+        while True:
+            open_ = [c for c, t in tasks.items() if not t[6]]
+            if not open_:
+                break
+            if time.time() - t0 > timeout:
+                raise mp.TimeoutError('observe_all: %d chunks unfinished' % len(open_))
+            for cid in open_:
+                res, first, part, path, size, changed, _ = tasks[cid]
+                if res.ready():
+                    res.get()
+                    _pid, _st, done = _read_progress(path)
+                    for k, o in done.items():
+                        out[first + k] = o
+                    tasks[cid][6] = True
+                    continue
+                try:
+                    sz = os.path.getsize(path)
+                except OSError:
+                    sz = -1
+                if sz != size:
+                    tasks[cid][4], tasks[cid][5] = sz, time.time()
+                elif sz >= 0 and time.time() - changed > stall:
+                    pid, started, done = _read_progress(path)
+                    for k, o in done.items():
+                        out[first + k] = o
+                    if started is not None and started not in done:
+                        out[first + started] = refused('HANG')
+                        rest = started + 1
+                    else:
+                        rest = (max(done) + 1) if done else 0
+                    if pid:
+                        try:
+                            os.kill(pid, signal.SIGKILL)
+                        except OSError:
+                            pass
+                    tasks[cid][6] = True
+                    if rest < len(part):
+                        submit(first + rest, part[rest:])
+            time.sleep(0.25)
+    import shutil
+    shutil.rmtree(d, ignore_errors=True)
+    return [o if o is not None else refused('HANG') for o in out]
 
 
 def _observe_sched_chunk(chunk):
